@@ -176,7 +176,8 @@ impl Report
         });
         if self.write_evidence
         {
-            let dir = format!("{}/evidence", VERIF_DIR);
+            // RVF_EVIDENCE_DIR: used when a thorough run is kept apart from the quick evidence (evidence-thorough/)
+            let dir = std::env::var("RVF_EVIDENCE_DIR").unwrap_or_else(|_| format!("{}/evidence", VERIF_DIR));
             let _ = fs::create_dir_all(&dir);
             let path = format!("{}/{}.json", dir, self.property);
             let tmp = format!("{}.tmp", path);
